@@ -57,6 +57,8 @@ def find_writer(repo):
                     nm = getattr(n.func, 'id', None) or n.func.attr
                     ia, ib = wrappers[nm]
                     a, b = n.args[ia], n.args[ib]
+                    if isinstance(a, ast.Subscript) and isinstance(b, ast.Subscript) and ast.dump(a.slice) == ast.dump(b.slice):
+                        a, b = a.value, b.value                    # wrapper(lists, ties, k) -> writer(lists[k], ties[k])
                     if isinstance(a, ast.Name) and isinstance(b, ast.Name) and a.id in ps and b.id in ps:
                         wrappers[f.name] = (ps.index(a.id), ps.index(b.id))
                         changed = True
@@ -160,6 +162,9 @@ def run(rep, repo, tier):
     for rel_, line_, pat_, missing_ in _lints.regex_digit_gaps(repo, repo.rel('solver')):
         rep.fail('C13.R2', rf.where, 'a pattern used on the reader side matches every digit of a number', got='%r (line %d of %s) never matches the digit(s) %s: an entry such as 10 or (20 is cut short or split' % (pat_, line_, rel_, missing_),
                  want='\\d / [0-9]', construct='regular expression without the digit %s' % missing_[0], loc='%s:%d' % (rel_, line_))
+    for rel_, line_, pat_ in _lints.regex_greedy_groups(repo, repo.rel('solver')):
+        rep.fail('C13.R2', rf.where, 'a pattern that picks out one bracketed tie group stops at that group\'s closing bracket', got='%r (line %d of %s): the greedy .* runs from the first "(" to the LAST ")" of the line, two tie groups and everything between them are read as one' % (pat_, line_, rel_),
+                 want='\\([^)]*\\)  or  \\(.*?\\)', construct='greedy wildcard between brackets', loc='%s:%d' % (rel_, line_))
     try:
         rt = T.ReaderTable(rf, decs, resolver=helper_resolver(repo, repo.rel('solver')))
     except Unknown as u:
